@@ -201,6 +201,11 @@ def _gen_sets(rng, tier):
         yield {"mask": m}
 
 
+def _gen_sets_border(rng, tier):
+    for m in _gen_masks(rng, tier, 10, 12, 300, 3000, extra_shapes=[(4, 4)]):
+        yield {"mask": m}
+
+
 def _gen_sets_ringfree(rng, tier):
     for m in _special_masks():
         if not _ring_unmasked(m):
@@ -217,7 +222,7 @@ def _gen_sets_ringfree(rng, tier):
 def _gen_views(rng, tier):
     geo = [((1.0, 1.0), (0.0, 0.0)), ((0.5, 2.0), (3.0, -2.0)), ((2.0, 0.25), (-1.5, 0.75))]
     k = 0
-    for m in _gen_masks(rng, tier, 9, 12, 150, 3000, extra_shapes=[(4, 4)]):
+    for m in _gen_masks(rng, tier, 9, 12, 150, 3000):
         s, o = geo[k % 3]
         k += 1
         yield {"mask": m, "pixel_scales": s, "origin": o}
@@ -306,11 +311,12 @@ def edge_set_util(mask):
     return _check_edge(mask, mk.derive_indexes.edge_slim, "derive_indexes.edge_slim")
 
 
-@bounded("C10", "border-set-util", gen=_gen_sets, nontrivial=_nt_sets)
+@bounded("C10", "border-set-util", gen=_gen_sets_border, nontrivial=_nt_sets)
 def border_set_util(mask):
     """C10: 'the border set consists of exactly those edge pixels from which a straight walk to the array boundary in at
     least one of the four axis directions meets only masked pixels' -- mask_2d_util.border_slim_indexes_from and
-    Mask2D.derive_indexes.border_slim, masks INCLUDING outer-ring pixels; bound as edge-set-util."""
+    Mask2D.derive_indexes.border_slim, masks INCLUDING outer-ring pixels; bound: 15 topologies, all masks <= 10 (12) cells
+    (thorough + all 4x4), 300 (3000) random <= 7x7."""
     import autoarray as aa
     from autoarray.mask import mask_2d_util
     m_in = mask.copy()
@@ -349,7 +355,7 @@ def views_agree(mask, pixel_scales, origin):
     """C10: 'the slim-index, native-index, mask and coordinate-grid views of each set all denote the same pixels, in slim
     order' -- derive_indexes.edge_slim/edge_native/border_slim/border_native, derive_mask.edge/border,
     derive_grid.edge/border on anisotropic pixel scales and non-zero origins (whatever set the slim view reports);
-    bound: 15 topologies, all masks <= 9 (12) cells (thorough + all 4x4), 150 (3000) random <= 7x7."""
+    bound: 15 topologies, all masks <= 9 (12) cells, 150 (3000) random <= 7x7."""
     import autoarray as aa
     mk = aa.Mask2D(mask=mask.copy(), pixel_scales=pixel_scales, origin=origin)
     di, dm, dg = mk.derive_indexes, mk.derive_mask, mk.derive_grid
